@@ -25,9 +25,14 @@ import (
 	lib "github.com/apmckinlay/gsuneido/util/zzverif"
 )
 
-type c01sRow struct{ k, a string }
+type c01sRow struct{ k, a, b string } // b is only used by the 3-column schema kind
 
-func (r c01sRow) String() string { return fmt.Sprintf("%q=%q", r.k, r.a) }
+func (r c01sRow) String() string {
+	if r.b != "" {
+		return fmt.Sprintf("%q=%q/%q", r.k, r.a, r.b)
+	}
+	return fmt.Sprintf("%q=%q", r.k, r.a)
+}
 
 type c01sOp struct {
 	kind   string // look scan ins del upd
@@ -62,11 +67,11 @@ type c01sTran struct {
 }
 
 type c01sSchema struct {
-	kind int // 0 key(k) index(a); 1 key(k) unique(a); 2 key(k,a) index(a); 3 key() index(k)
+	kind int // 0 key(k) index(a); 1 key(k) unique(a); 2 key(k,a) index(a); 3 key() index(k); 4 (k,a,b) key(k) unique(a,b)
 	ts   *meta.Schema
 }
 
-var c01sKinds = []string{"key(k)+index(a)", "key(k)+unique(a)", "key(k,a)+index(a)", "key()+index(k)"}
+var c01sKinds = []string{"key(k)+index(a)", "key(k)+unique(a)", "key(k,a)+index(a)", "key()+index(k)", "key(k)+unique(a,b)"}
 
 func c01sMakeSchema(kind int) *schema.Schema {
 	var ixs []schema.Index
@@ -79,6 +84,9 @@ func c01sMakeSchema(kind int) *schema.Schema {
 		ixs = []schema.Index{{Mode: 'k', Columns: []string{"k", "a"}}, {Mode: 'i', Columns: []string{"a"}}}
 	case 3:
 		ixs = []schema.Index{{Mode: 'k', Columns: []string{}}, {Mode: 'i', Columns: []string{"k"}}}
+	case 4:
+		ixs = []schema.Index{{Mode: 'k', Columns: []string{"k"}}, {Mode: 'u', Columns: []string{"a", "b"}}}
+		return &schema.Schema{Table: "t", Columns: []string{"k", "a", "b"}, Indexes: ixs}
 	}
 	return &schema.Schema{Table: "t", Columns: []string{"k", "a"}, Indexes: ixs}
 }
@@ -87,16 +95,19 @@ func c01sRec(r c01sRow) core.Record {
 	var b core.RecordBuilder
 	b.Add(core.SuStr(r.k))
 	b.Add(core.SuStr(r.a))
+	if r.b != "" {
+		b.Add(core.SuStr(r.b))
+	}
 	return b.Build()
 }
 
 // sameKey: do two rows collide on the key index of this schema kind
 func (s *c01sSchema) sameKey(x, y c01sRow) bool {
 	switch s.kind {
-	case 0, 1:
+	case 0, 1, 4:
 		return x.k == y.k
 	case 2:
-		return x == y
+		return x.k == y.k && x.a == y.a
 	}
 	return true // key(): any two rows collide
 }
@@ -104,12 +115,24 @@ func (s *c01sSchema) sameKey(x, y c01sRow) bool {
 // emptyKey: is the key value of the row empty (finding 1 territory)
 func (s *c01sSchema) emptyKey(x c01sRow) bool {
 	switch s.kind {
-	case 0, 1:
+	case 0, 1, 4:
 		return x.k == ""
 	case 2:
 		return x.k == "" && x.a == ""
 	}
 	return true
+}
+
+// sameUnique: do two rows share a non-empty value of the unique index (kinds 1 and 4).
+// A composite value is empty only when ALL its columns are empty.
+func (s *c01sSchema) sameUnique(x, y c01sRow) bool {
+	switch s.kind {
+	case 1:
+		return x.a != "" && x.a == y.a
+	case 4:
+		return (x.a != "" || x.b != "") && x.a == y.a && x.b == y.b
+	}
+	return false
 }
 
 type c01sModel struct {
@@ -139,7 +162,7 @@ func (m *c01sModel) dup(x c01sRow, skip int, checkKey, checkUniq bool) bool {
 		if checkKey && m.s.sameKey(r, x) {
 			return true
 		}
-		if checkUniq && m.s.kind == 1 && x.a != "" && r.a == x.a {
+		if checkUniq && m.s.sameUnique(r, x) {
 			return true
 		}
 	}
@@ -217,6 +240,15 @@ func (m *c01sModel) replay(o *c01sOp) string {
 
 var c01sVals = []string{"", "a", "b", "c", "a\x00"}
 
+// c01sForce presets the choices of one operation (structured scenarios)
+type c01sForce struct {
+	kind    int // 0 look, 1 scan, 2 ins, 3 del, 4 upd
+	row, to *c01sRow
+	ix      int
+	fwd     bool
+	limit   int
+}
+
 type c01sCfg struct {
 	name    string
 	collide bool // C07: few key values, mostly inserts/updates
@@ -242,7 +274,7 @@ func c01sScanAll(rt *ReadTran, ix int) []c01sRow {
 	var out []c01sRow
 	for it.Next(rt); !it.Eof(); it.Next(rt) {
 		rec := rt.GetRecord(it.CurOff())
-		out = append(out, c01sRow{rec.GetStr(0), rec.GetStr(1)})
+		out = append(out, c01sRow{rec.GetStr(0), rec.GetStr(1), rec.GetStr(2)})
 		if len(out) > 1000 {
 			break
 		}
@@ -255,14 +287,17 @@ func c01sHistory(tr *lib.Trace, r *rand.Rand, h int, cfg c01sCfg) {
 	db := CreateDb(stor.HeapStor(256 * 1024))
 	db.CheckerSync()
 	ck := db.ck.(*Check)
-	sc := &c01sSchema{kind: r.Intn(4)}
+	sc := &c01sSchema{kind: r.Intn(5)}
 	db.Create(c01sMakeSchema(sc.kind))
+	db.Create(&schema.Schema{Table: "u", Columns: []string{"k"},
+		Indexes: []schema.Index{{Mode: 'k', Columns: []string{"k"}}}}) // only for unrelated commits
 	tr.Count(pre + "schema=" + c01sKinds[sc.kind])
 	nvals := len(c01sVals)
 	if cfg.collide {
 		nvals = 1 + r.Intn(3) // "", a, b
 	}
 	val := func() string { return c01sVals[r.Intn(nvals)] }
+	valAB := func() string { return []string{"", "x", "y"}[r.Intn(2+r.Intn(2))] } // composite unique columns
 	committed := &c01sModel{s: sc}
 	var log []*c01sTran
 	var open []*c01sTran
@@ -308,7 +343,7 @@ func c01sHistory(tr *lib.Trace, r *rand.Rand, h int, cfg c01sCfg) {
 		return false
 	}
 	abandoned := false
-	doOp := func(st *c01sTran) {
+	doOp := func(st *c01sTran, f *c01sForce) {
 		if st.dead {
 			return
 		}
@@ -316,7 +351,13 @@ func c01sHistory(tr *lib.Trace, r *rand.Rand, h int, cfg c01sCfg) {
 		if sc.ts == nil {
 			sc.ts = ut.getSchema("t")
 		}
-		row := c01sRow{val(), val()}
+		row := c01sRow{k: val(), a: val()}
+		if sc.kind == 4 {
+			row.a, row.b = valAB(), valAB()
+		}
+		if f != nil && f.row != nil {
+			row = *f.row
+		}
 		if sc.emptyKey(row) {
 			emptyInvolved = true
 		}
@@ -326,12 +367,15 @@ func c01sHistory(tr *lib.Trace, r *rand.Rand, h int, cfg c01sCfg) {
 		if cfg.collide {
 			c = []int{0, 1, 2, 2, 2, 2, 2, 3, 4, 4, 4, 4}[r.Intn(12)]
 		}
+		if f != nil {
+			c = f.kind
+		}
 		lookup := func() (c01sRow, uint64, bool) {
 			dr := ut.Lookup("t", 0, key)
 			if dr == nil {
 				return c01sRow{}, 0, false
 			}
-			return c01sRow{dr.Record.GetStr(0), dr.Record.GetStr(1)}, dr.Off, true
+			return c01sRow{dr.Record.GetStr(0), dr.Record.GetStr(1), dr.Record.GetStr(2)}, dr.Off, true
 		}
 		switch {
 		case c == 0: // lookup
@@ -346,6 +390,9 @@ func c01sHistory(tr *lib.Trace, r *rand.Rand, h int, cfg c01sCfg) {
 		case c == 1: // partial scan
 			safely(st, func() {
 				o := c01sOp{kind: "scan", ix: r.Intn(2), fwd: r.Intn(2) == 0, limit: 1 + r.Intn(4)}
+				if f != nil && f.limit > 0 {
+					o.ix, o.fwd, o.limit = f.ix, f.fwd, f.limit
+				}
 				it := index.NewOverIter("t", o.ix)
 				var out []c01sRow
 				for len(out) < o.limit {
@@ -358,7 +405,7 @@ func c01sHistory(tr *lib.Trace, r *rand.Rand, h int, cfg c01sCfg) {
 						break
 					}
 					rec := ut.GetRecord(it.CurOff())
-					out = append(out, c01sRow{rec.GetStr(0), rec.GetStr(1)})
+					out = append(out, c01sRow{rec.GetStr(0), rec.GetStr(1), rec.GetStr(2)})
 				}
 				o.obs = c01sShow(out)
 				st.ops = append(st.ops, o)
@@ -385,9 +432,15 @@ func c01sHistory(tr *lib.Trace, r *rand.Rand, h int, cfg c01sCfg) {
 			})
 			tr.Count(pre + "op.del")
 		default: // update, often changing the key
-			to := c01sRow{row.k, val()}
+			to := c01sRow{k: row.k, a: val()}
+			if sc.kind == 4 {
+				to.a, to.b = valAB(), valAB()
+			}
 			if r.Intn(2) == 0 {
 				to.k = val()
+			}
+			if f != nil && f.to != nil {
+				to = *f.to
 			}
 			if sc.emptyKey(to) {
 				emptyInvolved = true
@@ -447,7 +500,7 @@ func c01sHistory(tr *lib.Trace, r *rand.Rand, h int, cfg c01sCfg) {
 						tr.Fail(sig, fmt.Sprintf("%s: after commit of ut#%d two live rows share the key: %v and %v",
 							desc(log...), last.id, rows[i], rows[j]))
 						ok, found = false, true
-					} else if sc.kind == 1 && rows[i].a != "" && rows[i].a == rows[j].a {
+					} else if sc.sameUnique(rows[i], rows[j]) {
 						tr.Fail("dup-unique", fmt.Sprintf("%s: after commit of ut#%d two live rows share unique value: %v and %v",
 							desc(log...), last.id, rows[i], rows[j]))
 						ok, found = false, true
@@ -495,6 +548,119 @@ func c01sHistory(tr *lib.Trace, r *rand.Rand, h int, cfg c01sCfg) {
 			tr.Count(pre + "commit.readonly")
 		}
 	}
+	// structured prefix (1 history in 8): the table is made exclusive, as Ensure / AlterCreate do
+	// around an index build; unrelated transactions on another table commit (each the only active
+	// update transaction); then a new transaction writes to the exclusive table: it must be refused.
+	if r.Intn(8) == 0 {
+		tr.Count(pre + "scenario.exclusive")
+		if ck.AddExclusive("t") {
+			for i := 1 + r.Intn(2); i > 0; i-- {
+				u := db.NewUpdateTran()
+				var b core.RecordBuilder
+				b.Add(core.SuStr(fmt.Sprint("u", h, i)))
+				if lib.Catch(func() { u.Output(nil, "u", b.Build()) }) != "" {
+					u.Abort()
+				} else if r.Intn(3) == 0 {
+					u.Abort()
+				} else if tables := ck.commit(u); len(tables) > 0 {
+					u.commit()
+				}
+			}
+			for i := 1 + r.Intn(2); i > 0; i-- {
+				nid++
+				w := &c01sTran{ut: db.NewUpdateTran(), id: nid}
+				x := c01sRow{k: val(), a: val()}
+				accepted := false
+				msg := lib.Catch(func() { w.ut.Output(nil, "t", c01sRec(x)); accepted = true })
+				if accepted {
+					tr.Fail("exclusive-write", fmt.Sprintf("history %d schema %s: table t is exclusive (AddExclusive, as during an index build); "+
+						"after unrelated commits on table u, ut#%d (start %d) inserts %v into t and is accepted",
+						h, c01sKinds[sc.kind], w.id, w.ut.ct.start, x))
+				} else if !strings.Contains(msg, "exclusive") {
+					tr.Count(pre + "scenario.exclusive.other-refusal")
+				} else {
+					tr.Count(pre + "scenario.exclusive.refused")
+				}
+				w.ut.Abort()
+			}
+			ck.EndExclusive("t")
+		}
+	}
+	// structured prefix (1 history in 4): some committed rows, then a reader that scans / looks up
+	// on the secondary index and writes something else, and a writer that inserts, deletes, or
+	// updates a row KEEPING its key while moving its secondary-index value; reads before or after
+	// the write; both commit, in either order.  Random but for the shape.
+	if r.Intn(4) == 0 && sc.kind != 3 {
+		tr.Count(pre + "scenario.skew")
+		newTran := func() *c01sTran {
+			nid++
+			return &c01sTran{ut: db.NewUpdateTran(), id: nid}
+		}
+		wide := []string{"", "a", "b", "c", "a\x00", "d", "e", "f", "g"}
+		mkrow := func() c01sRow {
+			x := c01sRow{k: wide[r.Intn(len(wide))], a: wide[r.Intn(len(wide))]}
+			if sc.kind == 4 {
+				x.a, x.b = valAB(), valAB()
+			}
+			return x
+		}
+		seed := newTran()
+		var have []c01sRow
+		for i := 3 + r.Intn(5); i > 0; i-- {
+			x := mkrow()
+			doOp(seed, &c01sForce{kind: 2, row: &x})
+			if n := len(seed.ops); n > 0 && seed.ops[n-1].obs == "ok" && seed.ops[n-1].row == x {
+				have = append(have, x)
+			}
+		}
+		commit(seed)
+		if len(have) > 0 && !abandoned {
+			rd, wr := newTran(), newTran()
+			steps := []func(){
+				func() {
+					if r.Intn(4) == 0 {
+						x := mkrow()
+						doOp(rd, &c01sForce{kind: 0, row: &x})
+					} else {
+						doOp(rd, &c01sForce{kind: 1, ix: 1, fwd: r.Intn(2) == 0, limit: 1 + r.Intn(2)})
+					}
+				},
+				func() { x := mkrow(); doOp(rd, &c01sForce{kind: 2, row: &x}) },
+				func() {
+					old := have[r.Intn(len(have))]
+					switch r.Intn(4) {
+					case 0:
+						x := mkrow()
+						doOp(wr, &c01sForce{kind: 2, row: &x})
+					case 1:
+						doOp(wr, &c01sForce{kind: 3, row: &old})
+					default:
+						to := mkrow()
+						to.k = old.k
+						doOp(wr, &c01sForce{kind: 4, row: &old, to: &to})
+					}
+				},
+			}
+			r.Shuffle(len(steps), func(i, j int) { steps[i], steps[j] = steps[j], steps[i] })
+			for _, f := range steps {
+				f()
+			}
+			if r.Intn(2) == 0 {
+				rd, wr = wr, rd
+			}
+			commit(rd)
+			if !abandoned {
+				commit(wr)
+			}
+			inLog := 0
+			for _, st := range log {
+				if st == rd || st == wr {
+					inLog++
+				}
+			}
+			tr.Count(fmt.Sprintf(pre+"scenario.skew.committed-updates=%d", inLog))
+		}
+	}
 	nsteps := 20 + r.Intn(40)
 	maxOpen := 2 + r.Intn(4)
 	for step := 0; step < nsteps && !abandoned; step++ {
@@ -504,7 +670,7 @@ func c01sHistory(tr *lib.Trace, r *rand.Rand, h int, cfg c01sCfg) {
 			nid++
 			open = append(open, &c01sTran{ut: db.NewUpdateTran(), id: nid})
 		case c < 7 && len(open) > 0:
-			doOp(open[r.Intn(len(open))])
+			doOp(open[r.Intn(len(open))], nil)
 		case c < 9 && len(open) > 0:
 			i := r.Intn(len(open))
 			commit(open[i])
@@ -539,10 +705,8 @@ func c01sHistory(tr *lib.Trace, r *rand.Rand, h int, cfg c01sCfg) {
 				}
 				emp := sc.kind == 3 || sc.emptyKey(o.row) || (o.kind == "upd" && sc.emptyKey(o.to))
 				if o.kind == "scan" {
-					for _, x := range append(append([]c01sRow(nil), m.rows...), committed.rows...) {
-						emp = emp || sc.emptyKey(x)
-					}
-					emp = emp || strings.Contains(o.obs, `""=`)
+					emp = sc.kind == 3 || strings.HasPrefix(o.obs, `""=`) || strings.Contains(o.obs, `,""=`) ||
+						strings.HasPrefix(got, `""=`) || strings.Contains(got, `,""=`)
 				}
 				tr.Fail(sig+suffix(emp), fmt.Sprintf("%s: op %d of ut#%d %v observed %q but serial replay in commit order gives %q; committed before: %v",
 					desc(log...), i, st.id, *o, o.obs, got, committed.rows))
